@@ -29,13 +29,22 @@ Definition allowed (hm : option mode) (secs : list mode) : bool :=
 
 Definition last_is_w (secs : list mode) : bool := match rev secs with W :: _ => true | _ => false end.
 
-Definition step09 (hm : option mode) (q : q09) (e : event) : option q09 :=
+(* a handler on its own (as the gate calls it): at most ONE critical section, in the handler's mode *)
+Definition allowed_handler (hm : option mode) (secs : list mode) : bool :=
+  match secs with
+  | [] => true
+  | [a] => is_mode a hm
+  | _ => false
+  end.
+
+Definition step09 (pat : list mode -> bool) (q : q09) (e : event) : option q09 :=
   let '(secs, open, seen) := q in
   match e with
   | EAcquire m => if open then None
-                  else if allowed hm (secs ++ [m]) then Some (secs ++ [m], true, false) else None
+                  else if pat (secs ++ [m]) then Some (secs ++ [m], true, false) else None
   | ERelease => Some (secs, false, false)
   | EStorage k =>
+      if negb open then None else              (* no storage access outside a critical section *)
       if open && last_is_w secs then
         match k with
         | Discover => Some (secs, open, true)
@@ -50,7 +59,8 @@ Fixpoint modes_eqb (a b : list mode) : bool :=
 Definition q09_eqb (a b : q09) : bool :=
   let '(s1, o1, n1) := a in let '(s2, o2, n2) := b in modes_eqb s1 s2 && Bool.eqb o1 o2 && Bool.eqb n1 n2.
 
-Definition check09 (hm : option mode) (s : skel) : bool := check_from q09_eqb (step09 hm) q09_0 s.
+Definition check09 (hm : option mode) (s : skel) : bool := check_from q09_eqb (step09 (allowed hm)) q09_0 s.
+Definition check09h (hm : option mode) (s : skel) : bool := check_from q09_eqb (step09 (allowed_handler hm)) q09_0 s.
 
 (* the lock mode of each handler, as the concurrency model (ConcHandlers.hmode) assumes it *)
 Definition mode_of_method (m : string) : option mode :=
@@ -66,11 +76,15 @@ Definition acquires (t : list event) : list mode :=
 Definition reread_after (t : list event) : bool :=
   fold_left (fun b e => match e with EAcquire _ | ERelease => false | EStorage Discover => true | _ => b end) t false.
 
-Definition sections_ok (hm : option mode) (t : list event) : Prop :=
-  allowed hm (acquires t) = true /\
-  forall pre k post, t = pre ++ EStorage k :: post -> sop_access k = AWrite -> held_after pre = Some W ->
-                     reread_after pre = true.
+Definition sections_pat (pat : list mode -> bool) (t : list event) : Prop :=
+  pat (acquires t) = true /\
+  (forall pre k post, t = pre ++ EStorage k :: post -> held_after pre <> None) /\
+  (forall pre k post, t = pre ++ EStorage k :: post -> sop_access k = AWrite -> held_after pre = Some W ->
+                      reread_after pre = true).
+Definition sections_ok (hm : option mode) (t : list event) : Prop := sections_pat (allowed hm) t.
+(* a handler alone: ONE critical section containing all its storage events *)
+Definition one_section_ok (hm : option mode) (t : list event) : Prop := sections_pat (allowed_handler hm) t.
 
 (* decided on one concrete event stream (used on the real server's streams) *)
 Definition sections_okb (hm : option mode) (t : list event) : bool :=
-  match steps (step09 hm) q09_0 t with Some _ => true | None => false end.
+  match steps (step09 (allowed hm)) q09_0 t with Some _ => true | None => false end.
